@@ -14,6 +14,7 @@ var (
 	ErrUnparseableTime      = errors.New("pdu: unparseable time")
 	ErrShortMessageTooLarge = errors.New("pdu: encoded short message data exceeds size of 140 bytes")
 	ErrMultipartTooMuch     = errors.New("pdu: multipart sms too much (max 254 segments)")
+	ErrInvalidCString       = errors.New("pdu: C-octet string contains a NUL octet")
 )
 
 const (
